@@ -25,9 +25,9 @@ RULE = ("case = metamorphic pair of programs with solve_order(a, b) (optionally 
         "completely over the RandState choice points from a fresh object; non-trivial = both enumerations complete and the "
         "number of b-companions differs between at least two feasible values of a in at least one of the two programs")
 ASSUMPTIONS = ["feasibility by exhaustive reference enumeration (ref.py)",
-               "only complete choice enumerations are judged (cap 8000 paths quick / 100000 thorough per program)",
+               "only complete choice enumerations are judged (cap 8000 paths / 30 s quick, 100000 paths / 240 s thorough per program)",
                "uniformity is required only when feasible(a) equals the set of values in the range list the library inferred for a"]
-CASE_TIMEOUT = 300
+CASE_TIMEOUT = 600
 
 
 def plan(tier):
@@ -47,7 +47,7 @@ def gen_case(rng, tier, idx):
                 ok = False
         if ok:
             return {"progs": progs, "seed": rng.randint(1, 1 << 30),
-                    "max_paths": 8000 if tier == "quick" else 100000, "max_seconds": 30 if tier == "quick" else 300}
+                    "max_paths": 8000 if tier == "quick" else 100000, "max_seconds": 30 if tier == "quick" else 240}
     return None
 
 
